@@ -1298,21 +1298,29 @@ func (w *lkWorld) lkWiringChecks() []string {
 		}
 	}
 	// gossip.Watcher is implemented by *syncer (so watcher.On… under gossip.mu reaches syncer.On…)
-	chk(w.hasImplAssertion("server/gossip", "gossip.Watcher", "syncer"), "var _ gossip.Watcher = &syncer{} not found")
+	// (type names through resolveName: a renamed type keeps its role)
+	syncerT := resolveName("server/gossip", "syncer")
+	fdIface, fdImpl := resolveName("pkg/gossip", "failureDetector"), resolveName("pkg/gossip", "accrualFailureDetector")
+	chk(w.hasImplAssertion("server/gossip", "gossip.Watcher", syncerT), "var _ gossip.Watcher = &syncer{} not found")
 	for _, m := range []string{"OnJoin", "OnLeave", "OnReachable", "OnUnreachable", "OnUpsertKey", "OnDeleteKey", "OnExpired"} {
-		_, ok := w.method("server/gossip:syncer", m, 0)
+		_, ok := w.method("server/gossip:"+syncerT, m, 0)
 		chk(ok, "syncer."+m+" not found")
 	}
 	// failureDetector is implemented by *accrualFailureDetector
-	chk(w.hasImplAssertion("pkg/gossip", "failureDetector", "accrualFailureDetector"), "var _ failureDetector = &accrualFailureDetector{} not found")
-	// cluster.State local-endpoint subscribers: syncer.Sync registers onLocalEndpointUpdate
+	chk(w.hasImplAssertion("pkg/gossip", fdIface, fdImpl), "var _ failureDetector = &accrualFailureDetector{} not found")
+	// cluster.State local-endpoint subscribers: syncer.Sync registers a method of the syncer
 	found := false
-	for _, k := range w.regs["server/cluster:State.localEndpointSubscribers"] {
-		if k == "server/gossip:syncer.onLocalEndpointUpdate" {
-			found = true
+	for fld, ks := range w.regs {
+		if !strings.HasPrefix(fld, "server/cluster:State.") {
+			continue
+		}
+		for _, k := range ks {
+			if strings.HasPrefix(k, "server/gossip:"+syncerT+".") {
+				found = true
+			}
 		}
 	}
-	chk(found, "syncer.Sync does not register onLocalEndpointUpdate with cluster.State.OnLocalEndpointUpdate")
+	chk(found, "syncer.Sync does not register a syncer method with cluster.State.OnLocalEndpointUpdate")
 	// gossiper is *gossip.Gossip, which forwards to clusterState: NewGossip calls syncer.Sync(gossip.New(...))
 	{
 		ok := false
@@ -1335,7 +1343,7 @@ func (w *lkWorld) lkWiringChecks() []string {
 				}
 				r, _ := w.named(f.typeOf(se.X))
 				a, _ := w.named(f.typeOf(ce.Args[0]))
-				if r == "server/gossip:syncer" && a == "pkg/gossip:Gossip" {
+				if r == "server/gossip:"+syncerT && a == "pkg/gossip:Gossip" {
 					ok = true
 				}
 				return true
